@@ -911,6 +911,12 @@ class Generator(TreeListener):
                             for_loop = f
                             sl = for_loop.index_variable
 
+                if sl is not None and dim is None:
+                    raise ValueError(
+                        "Symbol {} was given the loop index {} but this symbol "
+                        "is not an array.".format(s.name(), index.name)
+                    )
+
                 if sl is None:
                     sl = self.get_integer(index) if index is not None else None
 
